@@ -322,8 +322,11 @@ fn op_faults(ctx: &Ctx, acc: &mut Acc, cfg: &Cfg, prefix: &[Op], op: &Op, two: b
                             _ => {}
                         }
                         let d2 = r2.dut.as_ref().unwrap();
+                        let madctl_want = crate::spec::madctl_spec(cfg.bgr, orient2, cfg.refresh);
                         if !o2.is_ok() {
                             bad = mk("retry-failed", format!("the same call, retried without a fault, returned {o2:?}"));
+                        } else if matches!(op, Op::SetOrientation(_)) && matches!(cfg.model, ModelId::Tiny { .. }) && r2.ctl.madctl != madctl_want {
+                            bad = mk("retry-madctl", format!("after the failed and then repeated set_orientation the controller holds MADCTL {:02x}, the encoding of (colour order, orientation {orient2}, refresh order) is {madctl_want:02x}", r2.ctl.madctl));
                         } else if d2.orientation() != orient2 || d2.is_sleeping() != sleeping2 {
                             bad = mk("retry-without-effect", format!("after a successful retry orientation() = {} (expected {orient2}), is_sleeping() = {} (expected {sleeping2})", d2.orientation(), d2.is_sleeping()));
                         } else {
@@ -387,7 +390,10 @@ fn run(ctx: &Ctx) -> Part {
     // part B
     let mut jobs: Vec<(Cfg, Vec<Op>, Op)> = Vec::new();
     for tr in REAL {
-        let mut cfgs = vec![Cfg::tiny(8, 6, false, tr, (4, 3, 2, 1), 1)];
+        let mut c0 = Cfg::tiny(8, 6, false, tr, (4, 3, 2, 1), 1);
+        c0.bgr = true;
+        c0.refresh = 3;
+        let mut cfgs = vec![c0];
         if !tr.bus16() {
             cfgs.push(Cfg::tiny(4, 3, true, tr, (3, 3, 1, 0), 6));
         }
